@@ -8,6 +8,7 @@ import (
 	"time"
 
 	"verif/fw"
+	"verif/mqttref"
 	"verif/scen"
 )
 
@@ -505,6 +506,15 @@ func runRetryCase(prop string, mon monFn) func(c fw.Case, env *fw.Env) fw.Result
 				r.Counters["certified_stuck_runs"]++
 			}
 			r.Counters["connections"] += a.Connections()
+			for _, e := range a.Ev {
+				if e.Kind == "fault" && e.Pkt != nil {
+					r.Counters["fired:"+e.S+"@"+mqttref.TypeName(e.Pkt.Type)]++
+				}
+			}
+			if sc.SteerAt != "" {
+				r.Counters["steered:"+sc.SteerAt]++
+			}
+			r.Counters["client:"+sc.Client]++
 			if len(f) > 0 {
 				one := fw.Case{Name: c.Name, Idx: c.Idx}
 				_ = one
